@@ -165,6 +165,10 @@ def load_facts(verbose=False):
         lock.close()
     info = {'units': len(units), 'unit_list': units, 'cache_key': key, 'fresh_extraction': fresh,
             'load_s': round(time.time() - t0, 2), 'flags': FLAGS}
+    # parameters / locals that were only renamed get the names the rules were read with (nv/alpha.py)
+    if not os.environ.get('NV_NO_ALPHA'):
+        import alpha
+        info['alpha_renamed'] = {fid: ren for fid, ren in alpha.normalise(facts).items()}
     if verbose:
         print('facts: %d units, %d functions, key %s, fresh=%s, %.1fs' % (
             len(units), len(facts['functions']), key, fresh, info['load_s']), file=sys.stderr)
